@@ -32,6 +32,7 @@ def check(chk, thorough=False):
     chk.run('C20.i', 'R-TRUTH', 'the MTU applied is the configured one: the configuration loader hands every setting on as read (no clamping)', lambda ob: __import__('sa.props.common', fromlist=['config_verbatim']).config_verbatim(tree, ob, 'btpu/config.py'), floor=2)
     chk.run('C20.j', 'R-FRESH', 'the queues and reassembly table of a BTP-U agent belong to that agent object (created per instance, no shared default objects)', lambda ob: (__import__('sa.props.common', fromlist=['per_instance_state', 'fresh_defaults']).per_instance_state(tree, ob, 'btpu/agent.py', ('Agent',)), __import__('sa.props.common', fromlist=['per_instance_state', 'fresh_defaults']).fresh_defaults(tree, ob, ['btpu/agent.py', 'btpu/messages.py', 'btpu/config.py'])), floor=3)
     chk.run('C20.k', 'R-ORDER', 'a bundle that cannot be sent costs that bundle only: the head item leaves the TX queue before it is worked on', lambda ob: __import__('sa.props.common', fromlist=['tx_queue_head_leaves_first']).tx_queue_head_leaves_first(tree, ob, 'btpu/agent.py'), floor=1)
+    chk.run('C20.l', 'R-GUARD', 'the TX worker is started whenever the queue holds something (not only for the first item): a failed send does not leave the bundles behind it waiting for ever', lambda ob: __import__('sa.props.common', fromlist=['tx_trigger_whenever_nonempty']).tx_trigger_whenever_nonempty(tree, ob, 'btpu/agent.py'), floor=1)
     chk.run('C20.e', 'R-TRUTH', 'the end index is tested with "is not None": zero is a legitimate end index', lambda ob: c20e(tree, ob), floor=1)
 
 
